@@ -368,6 +368,9 @@ func c28BasePrograms() []c28Prog {
 			Src: "transaction {\n    prepare(signer: auth(Storage) &Account) {\n        log(\"@storage.load\")\n        let r <- signer.storage.load<@AnyResource>(from: /storage/preR)!\n        log(\"@storage.save\")\n        signer.storage.save(<-r, to: /storage/preR3)\n    }\n}\n"},
 		c28Prog{Name: "script:noimport-capability", Script: true,
 			Src: "access(all) fun main(): Bool {\n    log(\"@capabilities.borrow\")\n    let r = getAccount(0x1).capabilities.borrow<&AnyResource>(/public/preRcap)\n    log(\"@capability.check\")\n    return getAccount(0x1).capabilities.get<&AnyResource>(/public/preRcap).check() && r != nil\n}\n"},
+		// one commit that creates the account storage maps (and their index registers) of several fresh accounts
+		c28Prog{Name: "tx:fresh-accounts", Signers: []uint64{5, 6, 7},
+			Src: "transaction {\n    prepare(a: auth(Storage) &Account, b: auth(Storage) &Account, c: auth(Storage) &Account) {\n        a.storage.save(1, to: /storage/fresh)\n        b.storage.save(\"x\", to: /storage/fresh)\n        c.storage.save([1, 2], to: /storage/fresh)\n        log(\"@saved\")\n    }\n}\n"},
 		c28Prog{Name: "script:declares-types", Script: true,
 			Src: "access(all) struct P { access(all) let x: Int; init(x: Int) { self.x = x } }\naccess(all) resource Q {}\naccess(all) fun main(): Int { let q <- create Q(); log(q.uuid); destroy q; return P(x: 2).x + Int(getCurrentBlock().height) }\n"},
 	)
